@@ -51,7 +51,7 @@ fn main() {
     let only = args.iter().position(|a| a == "--only").and_then(|i| args.get(i + 1).cloned());
     let mut cx = Ctx { only, results: vec![] };
     match pid.as_str() {
-        "C01" => c01::run(&mut cx), "C02" => c02::run(&mut cx), "C04" => c04::run(&mut cx), "C07" => c07::run(&mut cx), "C09" => c09::run(&mut cx), "C11" => c11::run(&mut cx), "C12" => c12::run(&mut cx), "C10" => c10::run(&mut cx), "C15" => c15::run(&mut cx),
+        "C01" => c01::run(&mut cx), "C02" => c02::run(&mut cx), "C04" => { c04::run(&mut cx); c10::rules_under_assignments(&mut cx); } "C07" => c07::run(&mut cx), "C09" => c09::run(&mut cx), "C11" => c11::run(&mut cx), "C12" => c12::run(&mut cx), "C10" => c10::run(&mut cx), "C15" => c15::run(&mut cx),
         "C16" => c16::run(&mut cx), "C17" => c17::run(&mut cx), "C18" => c18::run(&mut cx), "C19" => c19::run(&mut cx),
         _ => { eprintln!("no executable contracts for {}", pid); std::process::exit(2); }
     }
